@@ -746,7 +746,7 @@ func init() {
 		Rule: "stateless DFS over choice vectors of the REAL singleflight.Group and of both SingleFlightProvider wrappers (proxy and authenticator side) over a scripted inner provider that mutates its session argument the way SSOProvider/Okta/Google do; " +
 			"threads = 2-3 callers x 1-2 calls over colliding and non-colliding subjects/endpoints; choice points = next thread at every mutex/WaitGroup operation and inside the provider call, and the call's outcome; " +
 			"oracle = interval model (DESIGN.md A.4): executions of one subject disjoint, a merged caller's result comes from an overlapping execution of the same endpoint and subject, none after the leader returned, leader told the number of joiners, no deadlock, merged caller's session fields equal the leader's; " +
-			"e2e/*: two whole requests through the REAL proxy (environment -> LoadConfig -> New -> logging handler) as scheduler threads, authenticator answered in memory inside the calling thread (a scheduling point per call), real loopback backends, in the statement-granularity scenarios a scheduling point before every statement of oauthproxy.go; differential oracle: every request ends exactly as it ends when it runs alone; " +
+			"e2e/*: two whole requests through the REAL proxy (environment -> LoadConfig -> New -> logging handler) as scheduler threads, authenticator answered in memory inside the calling thread (a scheduling point per call), real loopback backends, in the statement-granularity scenarios a scheduling point before every statement of oauthproxy.go; differential oracle: every request ends exactly as it ends when it runs alone; e2e-auth/*: the same for the REAL authenticator (NewAuthenticatorMux -> timeout handler -> logging handler, scripted IdP over TLS, every IdP call a scheduling point), plus: every state-changing IdP call made when the requests run alone is made here too; " +
 			"distinct_nontrivial = distinct (who ran / who merged / results) signatures among executions in which at least one call was merged",
 		Assumptions: []string{
 			"sequentially consistent memory; unsynchronised accesses are looked for by the separate free-running -race pass",
